@@ -246,6 +246,41 @@ NameStep(steps, i) ==
 PosByte(chunk, pos) == IF chunk = 0 THEN (256 - pos) % 256 ELSE chunk
 
 -----------------------------------------------------------------------------
+(* Declarations referred to by name (recursive types) and the in-chunk wrapper *)
+Fld(n, t, sp, tr, dv) == [n |-> n, t |-> t, sp |-> sp, tr |-> tr, dv |-> dv]
+Stp(op, n, dv) == [op |-> op, n |-> n, dv |-> dv]
+StructT(fields, steps) == [k |-> "struct", fields |-> fields, steps |-> steps]
+VariantT(n, shape, fields, steps, tr) == [n |-> n, shape |-> shape, fields |-> fields, steps |-> steps, tr |-> tr]
+EnumT(variants, sorted) == [k |-> "enum", variants |-> variants, sorted |-> sorted]
+NamedT(name) == [k |-> "named", name |-> name]
+
+\* Recursive declarations.  "RecList": struct { v: u8, next: Option<Box<Self>> };
+\* "RecTree": struct { v: u8, kids: Vec<Self> } with an added field;
+\* "RecEnum": enum { Leaf(u8), Node { l: Box<Self>, r: Box<Self> } } (like Throwable in the golden test)
+Named(name) ==
+  CASE name = "RecList" ->
+         StructT(<<Fld(<<118>>, [k |-> "u8"], "plain", FALSE, <<>>),
+                   Fld(<<110, 101, 120, 116>>, [k |-> "opt", e |-> [k |-> "box", e |-> NamedT("RecList")]], "Option", FALSE, <<>>)>>, <<>>)
+    [] name = "RecTree" ->
+         StructT(<<Fld(<<118>>, [k |-> "u8"], "plain", FALSE, <<>>),
+                   Fld(<<107, 105, 100, 115>>, [k |-> "vec", e |-> NamedT("RecTree")], "plain", FALSE, <<8>>)>>,
+                 <<Stp("Added", <<107, 105, 100, 115>>, <<8>>)>>)
+    [] name = "RecEnum" ->
+         EnumT(<<VariantT(<<76, 101, 97, 102>>, "tuple", <<Fld(VariantFieldName(0), [k |-> "u8"], "plain", FALSE, <<>>)>>, <<>>, FALSE),
+                 VariantT(<<78, 111, 100, 101>>, "struct",
+                          <<Fld(<<108>>, [k |-> "box", e |-> NamedT("RecEnum")], "plain", FALSE, <<>>),
+                            Fld(<<114>>, [k |-> "box", e |-> NamedT("RecEnum")], "plain", FALSE, <<>>)>>, <<>>, FALSE)>>, FALSE)
+
+\* a record whose middle field lives in chunk 1: what it embeds is read through a
+\* region that does not start at offset 0 (hand-written in the harness with the
+\* public AdtSerializer / AdtDeserializer API)
+InChunkStruct(T) ==
+  StructT(<<Fld(<<112, 114, 101>>, [k |-> "u8"], "plain", FALSE, <<>>),
+            Fld(<<109, 105, 100>>, T, "alias", FALSE, <<>>),
+            Fld(<<112, 111, 115, 116>>, [k |-> "u8"], "plain", FALSE, <<>>)>>,
+          <<Stp("Added", <<109, 105, 100>>, <<>>)>>)
+
+-----------------------------------------------------------------------------
 (* The encoder *)
 RECURSIVE EncM(_, _, _, _), EncItems(_, _, _, _, _), EncTs(_, _, _, _, _, _), EncRecord(_, _, _, _, _),
           EncFieldsSeq(_, _, _, _, _), EncFieldsChunked(_, _, _, _, _, _, _)
@@ -373,6 +408,8 @@ EncM(m, T, v, st) ==
               THEN EOk(<<1>> \o VarI(Len(r.b)) \o <<0>> \o r.b, r.st)
               ELSE EOk(<<0>> \o r.b, r.st)
     [] T.k = "struct" -> EncRecord(m, T.fields, T.steps, v, st)
+    [] T.k = "named" -> EncM(m, Named(T.name), v, st)
+    [] T.k = "inchunk" -> EncM(m, InChunkStruct(T.e), v, st)
     [] T.k = "enum" -> LET var == T.variants[v[2]] IN
                        IF var.tr THEN EErr("TransientCtor")
                        ELSE LET r == EncRecord(m, var.fields, var.steps, <<20>> \o SubSeq(v, 3, Len(v)), st) IN
@@ -503,8 +540,9 @@ ReadFields(fields, steps, b, h, i, s) ==
     ELSE LET c == Gen(steps, f.n)
              fp == <<c, s.cnt[c]>>
              s1 == [s EXCEPT !.cnt[c] = @ + 1] IN
-      IF h.sv < c THEN \* not in the data: declared default
-         ReadFields(fields, steps, b, h, i + 1, [s1 EXCEPT !.out = Append(@, f.dv)])
+      IF h.sv < c THEN \* not in the data: declared default (read_field(name, None): error)
+         IF f.dv = <<>> THEN DErr("FieldMissing")
+         ELSE ReadFields(fields, steps, b, h, i + 1, [s1 EXCEPT !.out = Append(@, f.dv)])
       ELSE LET w == IF h.chunked THEN c ELSE 0
                q == s1.cur[w]
                lim == h.wins[w + 1].hi IN
@@ -657,6 +695,8 @@ Dec(T, b, p, lim, st) ==
                            IF ~r.ok THEN r ELSE DOk(<<8>> \o SortMap(T.a, r.vs, <<>>), r.p, r.st)
     [] T.k = "tup" -> DecRecord(TupleFields(T.es), <<>>, b, p, lim, st, 10)
     [] T.k = "struct" -> DecRecord(T.fields, T.steps, b, p, lim, st, 20)
+    [] T.k = "named" -> Dec(Named(T.name), b, p, lim, st)
+    [] T.k = "inchunk" -> Dec(InChunkStruct(T.e), b, p, lim, st)
     [] T.k = "enum" ->
          IF Avail(p, lim) < 1 THEN DErr("InputEnded")
          ELSE IF b[p] = 0 THEN DecEnumBody(T, b, p + 1, lim, st)
